@@ -20,7 +20,7 @@ func propC15() Property {
 		Explanation: "R1 (pipeline agreement): the FIX and the FIXT validation pipelines call the same ordered list of validation rules, each under the same kind of guard (dictionary present / RejectInvalidMessage), each error returned before the next rule runs; every validate* rule that takes a dictionary is reachable from both Validator implementations (no orphan rule). " +
 			"R2 (reason constants vs specs): every session-level rejectReason constant used by a session reject constructor has the value the shipped specs give to the SessionRejectReason(373) enumerator of that name; business-level ones are matched against BusinessRejectReason(380) (one tabulated exception whose value the existing test suite pins). " +
 			"R3 (field-type switch): the switch on the dictionary's field type covers every type used by a shipped spec, and each arm instantiates the value class the FIX datatype table assigns (INT-like → int, FLOAT-like → float, BOOLEAN → bool, UTCTIMESTAMP/TIME → timestamp, the rest string-like). " +
-			"R4 (subject agreement): the tag a validation reject names shares its source with the operand of the guard that triggered it; the constructors put their reason constant and the tag into the error. R5 (no bypass): a check a validation function makes outside its loops (after the walk: group count, leftover fields, required fields) dominates every success return of that function; an earlier success exit is accepted only when its condition tests a boolean setting (a configured relaxation). R6 (duplicates): in the walk whose reject is guarded by a lookup in a set of seen tags, that set is filled with the same key on every path to the loop's back edge, after the lookup — every iterated field is recorded, tolerated-undefined ones included. R7 (relaxations are independent): an early success exit taken because settings are relaxed implies, for every reject site of the function that a setting enables, that this very setting is off. R8: a tag is compared with the user-defined boundary constant 5000 only as tag < 5000 / tag >= 5000; a required-tag-missing reject takes its tag from the definition, never from a field of the message being validated.",
+			"R4 (subject agreement): the tag a validation reject names shares its source with the operand of the guard that triggered it; the constructors put their reason constant and the tag into the error. R5 (no bypass): a check a validation function makes outside its loops (after the walk: group count, leftover fields, required fields) dominates every success return of that function; an earlier success exit is accepted only when its condition tests a boolean setting (a configured relaxation). R6 (duplicates): in the walk whose reject is guarded by a lookup in a set of seen tags, that set is filled with the same key on every path to the loop's back edge, after the lookup — every iterated field is recorded, tolerated-undefined ones included. R7 (relaxations are independent): an early success exit taken because settings are relaxed implies, for every reject site of the function that a setting enables, that this very setting is off. R8: a tag is compared with the user-defined boundary constant 5000 only as tag < 5000 / tag >= 5000; a required-tag-missing reject takes its tag from the definition, never from a field of the message being validated. R9: all validator-constructor calls of the session factory pass the one settings value the function fills from the configuration. R10 (shared with C14): float-typed values are checked against the digit/'.'/'-' whitelist.",
 		NotDecided: "acceptance of all conforming messages of ~900 definitions; that the single-defect mutation of each kind is answered with the exact (reason, tag) pair; group validation logic.",
 		Rules: []RuleDef{
 			{ID: "C15-R1", Desc: "FIX / FIXT pipelines agree; no orphan rule", Min: 6, Run: c15R1},
@@ -31,6 +31,8 @@ func propC15() Property {
 			{ID: "C15-R6", Desc: "duplicate bookkeeping covers every iterated field", Min: 3, Run: c15R6},
 			{ID: "C15-R7", Desc: "a relaxation switches off only its own check", Min: 2, Run: c15R7},
 			{ID: "C15-R8", Desc: "user-defined boundary is tag < 5000; a missing-field reject names a tag from the definition", Min: 3, Run: c15R8},
+			{ID: "C15-R9", Desc: "every validator is built with the configured settings", Min: 2, Run: c15R9},
+			{ID: "C15-R10", Desc: "float values: digits, '.', '-' only (= C14-R4)", Min: 3, Run: c14R4},
 		},
 	}
 }
